@@ -317,7 +317,16 @@ func runMacro() {
 		jobs = append(jobs, jobsFor(sigmaDM, 0, 2, hdr, "\x1e", constLevel(lvStream), "macro"+m+"-half-trailer", 5000)...)
 	}
 	jobs = append(jobs, jobsFor(sigmaDM, 0, 2, "", "\x1e\x04", constLevel(lvStream), "trailer-only", 5000)...)
-	runJobs("(d) macro 05/06 envelope around every string of length 0..3 over Sigma_DM (all levels), and the near-miss envelopes around length 0..2", jobs)
+	// long macro bodies: the nine envelope characters cost ONE codeword, so a digit body of 2k digits
+	// needs 1+k codewords - more characters per codeword than any plain text. Bodies that fill the
+	// largest symbols exactly, one pair less / more, each followed by every string of length 0..1
+	for _, m := range []string{"05", "06"} {
+		hdr := "[)>\x1e" + m + "\x1d"
+		for _, k := range []int{1047, 1048, 1303, 1304, 1555, 1556, 1557, 1558} {
+			jobs = append(jobs, jobsFor(sigmaDM, 0, 1, hdr+strings.Repeat("42", k), "\x1e\x04", constLevel(lvStream), fmt.Sprintf("macro%s-digits-%d", m, 2*k), 5000)...)
+		}
+	}
+	runJobs("(d) macro 05/06 envelope around every string of length 0..3 over Sigma_DM (all levels), the near-miss envelopes around length 0..2, and long digit bodies (2k digits, k in {1047,1048,1303,1304,1555..1558}: filling 120x120, 132x132 and 144x144 exactly, one pair less and more) followed by every string of length 0..1", jobs)
 }
 
 // ------------------------------------------------------------------ (e) not ISO-8859-1
